@@ -16,7 +16,14 @@ O (property on the implementation, through `RpcServer`)
     * describe round trip over the pipe path (`introspect`), HTTP (`http_introspect`) equals the server's method table and the
       spec (kinds, flags, parameter names/nullability); still callable when the client's protocol version is absent, malformed
       or mismatched (pipe + HTTP);
-    * the hash recomputed in a fresh interpreter (different PYTHONHASHSEED) is identical.
+    * the hash recomputed in a fresh interpreter (different PYTHONHASHSEED) is identical;
+    * header / nested record types that EXTEND another record (child adds / overrides fields), every server built on fresh
+      classes after one of several touch orders of the related classes (parent first, root only, leaf first, a sibling service
+      using the parent built first): same definition => same hash, and the described header / parameter schemas are the ones
+      the definition states (computed by the harness from the spec, not read from the code's cached `ARROW_SCHEMA`);
+    * a version-mismatched client on ONE pipe connection (real `RpcConnection` + `introspect`): after each refused call
+      (unary, header stream, typed producer, exchange, untyped stream) `__describe__` still answers, with the same description.
+K additionally: `_ArrowSchemaDescriptor.__get__` on generated class forests x touch sequences vs the model's `touchAll`.
 """
 
 import copy
@@ -42,6 +49,7 @@ OBLIGATIONS = [
     "VgiVerif.C39.C39_faithful",
     "VgiVerif.C39.C39_describe_hash",
     "VgiVerif.C39.C39_exempt",
+    "VgiVerif.C39.C39_schema_definition_only",
     "VgiVerif.C39.C39_insensitive",
     "VgiVerif.C39.C39_stable",
     "VgiVerif.C39.C39_not_inputs",
@@ -62,7 +70,10 @@ RULE = (
     "producer/exchange/raw state classes; 3 header types; ASCII, non-ASCII, astral and punctuation names) x every applicable "
     "single-point edit at every position (rename protocol/method/param, retype, nullability, unary<->stream, has_return, "
     "producer<->exchange<->raw, same-kind state class swap, header add/remove/retype, add/remove/reorder params and methods, "
-    "docstrings, defaults, server id, protocol_version); a case is one (service, edit) pair, distinct by spec JSON; "
+    "docstrings, defaults, server id, protocol_version); header / nested record types incl. records that extend another record "
+    "(child adds / overrides fields), every server on fresh classes after one of 5 touch orders of the related classes; "
+    "version-declaring services: [refused call, describe]* on one pipe connection for every method kind; "
+    "a case is one (service, edit, touch order) triple, distinct by spec JSON; "
     "non-trivial when the service has >= 1 method"
 )
 PARTIAL = [
@@ -107,20 +118,83 @@ class Point(ArrowSerializableDataclass):
     y: float
 
 
-@dataclass(frozen=True)
-class HdrA(ArrowSerializableDataclass):
-    a: int
+# Header / nested record dataclasses are *specs*: the classes are created afresh for every server that is built, because
+# `ARROW_SCHEMA` is cached on the class on first access and the ORDER in which a class and its ancestors are first
+# touched is a dimension of the run (the hash must be a function of the definition only, not of that order).
+# name -> (parent record or None, own fields [(name, type key, nullable)]); a child may add fields and override inherited ones
+RECORDS: dict[str, tuple[str | None, list[tuple[str, str, bool]]]] = {
+    "HdrA": (None, [("a", "int", False)]),
+    "HdrB": (None, [("a", "int", False), ("b", "str", False)]),
+    "HdrC": (None, [("x", "float", True)]),
+    "HdrA2": ("HdrA", [("shard", "int", False), ("note", "str", True)]),      # child adds fields
+    "HdrB2": ("HdrB", [("b", "int", True)]),                                  # child overrides an inherited field
+    "HdrA3": ("HdrA2", [("z", "float", False), ("a", "str", False)]),         # grandchild: adds + overrides
+    "RecP": (None, [("k", "str", False)]),
+    "RecQ": ("RecP", [("v", "float", True)]),
+}
+HEADER_KEYS = ["HdrA", "HdrB", "HdrC", "HdrA2", "HdrB2", "HdrA3"]
+SCALARS: dict[str, tuple[Any, pa.DataType]] = {"int": (int, pa.int64()), "float": (float, pa.float64()), "str": (str, pa.utf8())}
+TOUCH_ORDERS = ["none", "parent-first", "root-only", "leaf-first", "sibling-service"]
 
 
-@dataclass(frozen=True)
-class HdrB(ArrowSerializableDataclass):
-    a: int
-    b: str
+def record_chain(name: str) -> list[str]:
+    """[root, ..., name]"""
+    out = [name]
+    while RECORDS[out[0]][0] is not None:
+        out.insert(0, RECORDS[out[0]][0])  # type: ignore[arg-type]
+    return out
 
 
-@dataclass(frozen=True)
-class HdrC(ArrowSerializableDataclass):
-    x: float | None
+def record_fields(name: str) -> list[tuple[str, str, bool]]:
+    """Dataclass field order: inherited fields keep their position, an override replaces the type in place."""
+    fields: dict[str, tuple[str, str, bool]] = {}
+    for r in record_chain(name):
+        for f in RECORDS[r][1]:
+            fields[f[0]] = f
+    return list(fields.values())
+
+
+def record_schema(name: str) -> pa.Schema:
+    """The Arrow schema the *definition* of the record stands for (independent of the code under test)."""
+    return pa.schema([pa.field(n, SCALARS[t][1], nullable=nl) for n, t, nl in record_fields(name)])
+
+
+class ClassSet:
+    """Fresh dataclasses for every record (one set per server built)."""
+
+    def __init__(self) -> None:
+        self.cls: dict[str, type] = {}
+        for name in RECORDS:
+            self._make(name)
+
+    def _make(self, name: str) -> type:
+        if name in self.cls:
+            return self.cls[name]
+        parent, own = RECORDS[name]
+        base = ArrowSerializableDataclass if parent is None else self._make(parent)
+        ann = {n: ((SCALARS[t][0] | None) if nl else SCALARS[t][0]) for n, t, nl in own}
+        c = dataclass(frozen=True)(type(name, (base,), {"__annotations__": ann, "__module__": __name__}))
+        self.cls[name] = c
+        return c
+
+    def touch(self, order: str, used: list[str]) -> None:
+        """Materialise `ARROW_SCHEMA` of classes related to the records a service uses, in the given order."""
+        for u in used:
+            chain = record_chain(u)
+            if order == "parent-first":
+                for r in chain[:-1]:
+                    _ = self.cls[r].ARROW_SCHEMA  # type: ignore[attr-defined]
+            elif order == "root-only":
+                _ = self.cls[chain[0]].ARROW_SCHEMA  # type: ignore[attr-defined]
+            elif order == "leaf-first":
+                for r in reversed(chain):
+                    _ = self.cls[r].ARROW_SCHEMA  # type: ignore[attr-defined]
+            elif order == "sibling-service" and len(chain) > 1:
+                # another service of the same process, built first, uses the parent record as its header
+                def scan(self_: Any) -> Any: ...
+                scan.__annotations__ = {"return": Stream[ProdA, self.cls[chain[-2]]]}  # type: ignore[valid-type]
+                P = type("Sibling", (Protocol,), {"scan": scan, "__module__": __name__})
+                RpcServer(P, type("SiblingImpl", (), {"scan": scan})(), enable_describe=True)
 
 
 @dataclass
@@ -187,8 +261,19 @@ TYPES: dict[str, tuple[Any, Any, pa.DataType]] = {
     "enum": (Color, Color.RED, pa.dictionary(pa.int16(), pa.utf8())),
     "point": (Point, Point(1.0, 2.0), pa.binary()),
 }
-RESULT_TYPES = [k for k in TYPES if k != "point"]
-HEADERS: dict[str, type] = {"HdrA": HdrA, "HdrB": HdrB, "HdrC": HdrC}
+NESTED = {"list_recp": "RecP", "list_recq": "RecQ", "list_hdra2": "HdrA2"}  # list[<record>] -> list<struct<record fields>>
+for _k, _r in NESTED.items():
+    TYPES[_k] = (None, [], pa.list_(pa.struct(list(record_schema(_r)))))
+RESULT_TYPES = [k for k in TYPES if k != "point" and k not in NESTED]
+
+
+def used_records(s: "SvcSpec") -> list[str]:
+    out: list[str] = []
+    for m in s.methods:
+        for k in [m.header if m.kind == "stream" else None] + [NESTED.get(p.type) for p in m.params]:
+            if k is not None and k not in out:
+                out.append(k)
+    return out
 STATES: dict[str, tuple[type, bool | None]] = {
     "ProdA": (ProdA, False), "ProdB": (ProdB, False), "ExchA": (ExchA, True), "ExchB": (ExchB, True),
     "RawA": (RawA, None), "RawB": (RawB, None),
@@ -213,7 +298,7 @@ class MethodSpec:
     ret: str | None = None  # unary: result type key or None
     ret_nullable: bool = False
     state: str = "ProdA"  # stream: key of STATES
-    header: str | None = None  # stream: key of HEADERS
+    header: str | None = None  # stream: key of RECORDS (HEADER_KEYS)
     doc: str | None = None
 
 
@@ -244,7 +329,7 @@ def wire_view(s: SvcSpec) -> str:
             res = None if m.ret is None else (str(TYPES[m.ret][2]), m.ret_nullable)
             ms.append((m.name, "unary", m.ret is not None, params, res, None, None))
         else:
-            hdr = None if m.header is None else str(HEADERS[m.header].ARROW_SCHEMA)  # type: ignore[attr-defined]
+            hdr = None if m.header is None else str(record_schema(m.header))
             ms.append((m.name, "stream", False, params, None, hdr, STATES[m.state][1]))
     ms.sort(key=lambda t: t[0])
     return json.dumps([s.name, ms], ensure_ascii=True)
@@ -253,18 +338,20 @@ def wire_view(s: SvcSpec) -> str:
 # ============================================================================================ spec -> real classes
 
 
-def _hint(key: str, nullable: bool) -> Any:
-    t = TYPES[key][0]
+def _hint(key: str, nullable: bool, cs: ClassSet) -> Any:
+    t = list[cs.cls[NESTED[key]]] if key in NESTED else TYPES[key][0]  # type: ignore[name-defined]
     return (t | None) if nullable else t
 
 
 def _default_value(p: ParamSpec) -> Any:
+    if p.type in NESTED:
+        return None if (p.default_alt and p.nullable) else []
     if p.default_alt:
         return None if p.nullable else copy.deepcopy(TYPES[p.type][1])
     return {"int": 0, "float": 0.0, "str": "", "bytes": b"", "bool": False}.get(p.type, copy.deepcopy(TYPES[p.type][1]))
 
 
-def make_func(m: MethodSpec) -> Any:
+def make_func(m: MethodSpec, cs: ClassSet) -> Any:
     parts = ["self"]
     ns: dict[str, Any] = {}
     star = False
@@ -281,12 +368,12 @@ def make_func(m: MethodSpec) -> Any:
             parts.append(p.name)
     exec(f"def _f({', '.join(parts)}): ...", ns)  # noqa: S102 - parameter names are generated identifiers
     f = ns["_f"]
-    ann: dict[str, Any] = {p.name: _hint(p.type, p.nullable) for p in m.params}
+    ann: dict[str, Any] = {p.name: _hint(p.type, p.nullable, cs) for p in m.params}
     if m.kind == "unary":
-        ann["return"] = type(None) if m.ret is None else _hint(m.ret, m.ret_nullable)
+        ann["return"] = type(None) if m.ret is None else _hint(m.ret, m.ret_nullable, cs)
     else:
         st = STATES[m.state][0]
-        ann["return"] = Stream[st] if m.header is None else Stream[st, HEADERS[m.header]]  # type: ignore[valid-type]
+        ann["return"] = Stream[st] if m.header is None else Stream[st, cs.cls[m.header]]  # type: ignore[valid-type]
     f.__annotations__ = ann
     f.__name__ = f.__qualname__ = m.name
     doc = m.doc
@@ -297,7 +384,8 @@ def make_func(m: MethodSpec) -> Any:
     return f
 
 
-def make_classes(s: SvcSpec) -> tuple[type, Any]:
+def make_classes(s: SvcSpec, cs: ClassSet | None = None) -> tuple[type, Any]:
+    cs = cs or ClassSet()
     ns: dict[str, Any] = {"__module__": __name__}
     if s.doc is not None:
         ns["__doc__"] = s.doc
@@ -305,7 +393,7 @@ def make_classes(s: SvcSpec) -> tuple[type, Any]:
         ns["protocol_version"] = s.version
     ins: dict[str, Any] = {}
     for m in s.methods:
-        f = make_func(m)
+        f = make_func(m, cs)
         ns[m.name] = f
         ins[m.name] = f
     P = type(s.name, (Protocol,), ns)
@@ -313,8 +401,11 @@ def make_classes(s: SvcSpec) -> tuple[type, Any]:
     return P, Impl()
 
 
-def make_server(s: SvcSpec) -> RpcServer:
-    P, impl = make_classes(s)
+def make_server(s: SvcSpec, touch: str = "none") -> RpcServer:
+    """Build the server on a fresh set of record classes, after touching related classes in the given order."""
+    cs = ClassSet()
+    cs.touch(touch, used_records(s))
+    P, impl = make_classes(s, cs)
     return RpcServer(P, impl, server_id=s.server_id, enable_describe=True)
 
 
@@ -347,7 +438,7 @@ def gen_method(rng: Any, used: set[str]) -> MethodSpec:
         ret = rng.choice([None] + RESULT_TYPES)
         return MethodSpec(name=name, kind="unary", params=params, ret=ret, ret_nullable=ret is not None and rng.random() < 0.3, doc=doc)
     return MethodSpec(name=name, kind="stream", params=params, state=rng.choice(list(STATES)),
-                      header=rng.choice([None, None, "HdrA", "HdrB", "HdrC"]), doc=doc)
+                      header=rng.choice([None] * 6 + HEADER_KEYS), doc=doc)
 
 
 def gen_service(rng: Any) -> SvcSpec:
@@ -376,6 +467,23 @@ CORPUS: list[SvcSpec] = [
         MethodSpec("é", "unary", [], ret="bool"),
     ], version="0.1.0"),
     SvcSpec("A|B", [MethodSpec("x|y", "unary", [ParamSpec("a", "int")], ret="int")]),
+    # one method of every kind, version-declaring (a mismatched client: refused call, then describe, on one connection)
+    SvcSpec("Kinds", [
+        MethodSpec("ping", "unary", [], ret="str"),
+        MethodSpec("rows", "stream", [ParamSpec("n", "int")], state="ProdA"),
+        MethodSpec("rows_with_header", "stream", [ParamSpec("n", "int")], state="ProdB", header="HdrA"),
+        MethodSpec("rows_untyped", "stream", [ParamSpec("n", "int")], state="RawA"),
+        MethodSpec("echo", "stream", [], state="ExchA"),
+        MethodSpec("store", "unary", [ParamSpec("p", "point"), ParamSpec("m", "dict_str_int", default=True)]),
+    ], version="2.0.0"),
+    # header / nested record types that EXTEND another record (child adds / overrides fields)
+    SvcSpec("ScanV2", [MethodSpec("scan", "stream", [ParamSpec("table", "str")], state="RawA", header="HdrA2")], version="2.0.0"),
+    SvcSpec("Derived", [
+        MethodSpec("over", "stream", [], state="ProdA", header="HdrB2"),
+        MethodSpec("deep", "stream", [ParamSpec("rs", "list_recq")], state="ExchA", header="HdrA3"),
+        MethodSpec("put", "unary", [ParamSpec("ps", "list_recp"), ParamSpec("hs", "list_hdra2", nullable=True)], ret="int"),
+        MethodSpec("rows", "stream", [ParamSpec("n", "int")], state="ProdB"),
+    ], version="1.2.3"),
 ]
 
 
@@ -440,10 +548,10 @@ def edits(s: SvcSpec, rng: Any) -> list[tuple[str, SvcSpec]]:
             ed("state-class-same-kind", lambda t, i=i, cur=cur: setattr(
                 t.methods[i], "state", rng.choice([k for k, v in STATES.items() if v[1] == cur and k != t.methods[i].state])))
             if m.header is None:
-                ed("header-add", lambda t, i=i: setattr(t.methods[i], "header", rng.choice(list(HEADERS))))
+                ed("header-add", lambda t, i=i: setattr(t.methods[i], "header", rng.choice(HEADER_KEYS)))
             else:
                 ed("header-remove", lambda t, i=i: setattr(t.methods[i], "header", None))
-                ed("header-retype", lambda t, i=i: setattr(t.methods[i], "header", _other(rng, list(HEADERS), t.methods[i].header)))
+                ed("header-retype", lambda t, i=i: setattr(t.methods[i], "header", _other(rng, HEADER_KEYS, t.methods[i].header)))
         pused = {p.name for p in m.params}
 
         def add_param(t: SvcSpec, i: int = i, pused: set[str] = pused) -> None:
@@ -628,10 +736,10 @@ class Run:
             cb(r)
 
     # ---- building ------------------------------------------------------------------------------------
-    def build(self, s: SvcSpec) -> tuple[RpcServer | None, str | None]:
+    def build(self, s: SvcSpec, touch: str = "none") -> tuple[RpcServer | None, str | None]:
         """(server, None) or (None, error class) — a construction error is ValueError('…framing separator…') or something else."""
         try:
-            srv = make_server(s)
+            srv = make_server(s, touch)
             self.n_servers += 1
             return srv, None
         except ValueError as e:
@@ -654,22 +762,28 @@ class Run:
         self.by_view.setdefault(v, (h, spec_json(s)))
 
     # ---- O: one edit ---------------------------------------------------------------------------------------
-    def check_edit(self, base: SvcSpec, base_srv: RpcServer, kind: str, edited: SvcSpec) -> RpcServer | None:
+    def check_edit(self, base: SvcSpec, base_srv: RpcServer, kind: str, edited: SvcSpec, touch: str = "none") -> RpcServer | None:
         ctx = self.ctx
-        case = {"base": spec_json(base), "edit": kind, "edited": spec_json(edited)}
+        case = {"base": spec_json(base), "edit": kind, "edited": spec_json(edited), "touch": touch}
         relevant = wire_view(base) != wire_view(edited)
         ctx.case(case, nontrivial=bool(base.methods) or bool(edited.methods),
-                 tags=(f"edit:{kind}", "relevant" if relevant else "not-relevant"))
-        srv, err = self.build(edited)
+                 tags=(f"edit:{kind}", "relevant" if relevant else "not-relevant", f"touch:{touch}"))
+        srv, err = self.build(edited, touch)
         if srv is None:
             if err != "separator_in_name" or not any(c in edited.name or any(c in m.name for m in edited.methods) for c in SEPS):
                 ctx.fail(case, f"C39:edited-service-rejected:{kind}", f"server construction failed: {err}")
             return None
         same = srv.protocol_hash == base_srv.protocol_hash
-        if relevant and same:
-            ctx.fail(case, f"C39:hash-insensitive:{kind}", f"wire-relevant edit {kind} left protocol_hash unchanged")
-        if not relevant and not same:
-            ctx.fail(case, f"C39:hash-unstable:{kind}", f"edit {kind} is not wire relevant but protocol_hash changed")
+        if (relevant and same) or (not relevant and not same):
+            why = kind
+            if touch != "none":
+                plain, _ = self.build(edited)
+                if plain is not None and plain.protocol_hash != srv.protocol_hash:
+                    why = f"touch-order:{touch}"  # the edit is innocent: the same edited definition hashes differently by touch order
+            if relevant and same:
+                ctx.fail(case, f"C39:hash-insensitive:{why}", f"wire-relevant edit {kind} (classes touched: {touch}) left protocol_hash unchanged")
+            else:
+                ctx.fail(case, f"C39:hash-unstable:{why}", f"edit {kind} (classes touched: {touch}) is not wire relevant but protocol_hash changed")
         self.register(edited, srv, case)
         return srv
 
@@ -796,11 +910,11 @@ class Run:
         self.ask("C39.hash", {"name": s2j(name), "rows": rows}, compare)
 
     # ---- O: faithful + exempt -------------------------------------------------------------------------------
-    def check_describe(self, s: SvcSpec, srv: RpcServer, http: bool) -> None:
+    def check_describe(self, s: SvcSpec, srv: RpcServer, http: bool, touch: str = "none") -> None:
         from vgi_rpc.introspect import DESCRIBE_VERSION, introspect, parse_describe_batch
 
         ctx = self.ctx
-        case = {"describe": spec_json(s)}
+        case = {"describe": spec_json(s), "touch": touch}
         ctx.case(case, nontrivial=bool(s.methods), tags=("o:describe", "versioned" if s.version else "unversioned"))
         table = {n: i for n, i in srv._methods.items() if n != "__describe__"}
 
@@ -827,14 +941,20 @@ class Run:
                     and md.params_schema.equals(info.params_schema, check_metadata=True)
                     and md.result_schema.equals(info.result_schema, check_metadata=True)
                     and md.method_type == info.method_type and md.has_return == info.has_return
-                    and ((md.header_schema is None and info.header_type is None)
-                         or (md.header_schema is not None and info.header_type is not None
-                             and md.header_schema.equals(info.header_type.ARROW_SCHEMA, check_metadata=True)
-                             and m.header is not None
-                             and md.header_schema.equals(HEADERS[m.header].ARROW_SCHEMA, check_metadata=True)))  # type: ignore[attr-defined]
+                    and (md.header_schema is None) == (info.header_type is None) == (not want_hdr)
                 )
                 if not ok:
                     ctx.fail(case, key + ":method", f"description of {m.name!r} via {via} differs from the definition / method table")
+                    return False
+                # schemas against the *definition* (the harness's own reading of the spec, not the code's cached ARROW_SCHEMA)
+                if want_hdr and not md.header_schema.equals(record_schema(m.header)):  # type: ignore[arg-type]
+                    ctx.fail(case, key + ":header-schema", f"header of {m.name!r} described as {md.header_schema.names} "
+                             f"{[str(f.type) for f in md.header_schema]}, definition {m.header} says {record_fields(m.header)}")  # type: ignore[arg-type]
+                    return False
+                want_params = pa.schema([pa.field(p.name, TYPES[p.type][2], nullable=p.nullable) for p in m.params])
+                if not md.params_schema.equals(want_params):
+                    ctx.fail(case, key + ":params-schema", f"parameters of {m.name!r} described as {md.params_schema.to_string()!r}, "
+                             f"definition says {want_params.to_string()!r}")
                     return False
             return True
 
@@ -909,6 +1029,126 @@ class Run:
                 if r2["pass"] is not True:
                     ctx.mismatch(case, r2, {"pass": True}, "describe gate (http): model vs implementation")
 
+    # ---- O: a version-mismatched client, one connection: [refused call, describe]* --------------------------------------
+    def check_after_refusal(self, s: SvcSpec) -> None:
+        import threading
+
+        from vgi_rpc.introspect import introspect
+        from vgi_rpc.rpc import RpcConnection, RpcError, make_pipe_pair
+
+        ctx = self.ctx
+        if s.version is None or not s.methods:
+            return
+        case = {"after_refusal": spec_json(s)}
+        ctx.case(case, nontrivial=True, tags=("o:after-refusal",))
+        srv, err = self.build(s)
+        if srv is None:
+            return
+        client_spec = copy.deepcopy(s)
+        client_spec.version = f"{int(s.version.split('.')[0]) + 1}.0.0"
+        CP, _impl = make_classes(client_spec)
+        client_t, server_t = make_pipe_pair()
+        th = threading.Thread(target=srv.serve, args=(server_t,), daemon=True)
+        th.start()
+        problems: list[tuple[str, str]] = []
+
+        def label(m: MethodSpec) -> str:
+            if m.kind == "unary":
+                return "unary"
+            if m.header is not None:
+                return "stream-with-header"
+            return {True: "exchange", False: "typed-producer", None: "untyped-stream"}[STATES[m.state][1]]
+
+        def scenario() -> None:
+            with RpcConnection(CP, client_t) as proxy:
+                try:
+                    want = canon_description(introspect(client_t))
+                except Exception as e:  # noqa: BLE001
+                    problems.append(("C39:describe-refused:pipe:connection", f"introspect on a fresh connection failed: {e!r}"[:300]))
+                    return
+                for m in s.methods:
+                    kwargs = {p.name: (_default_value(ParamSpec(p.name, p.type)) if p.type in NESTED else copy.deepcopy(TYPES[p.type][1]))
+                              for p in m.params}
+                    ended = "returned"
+                    try:
+                        r = getattr(proxy, m.name)(**kwargs)
+                        if m.kind == "stream":
+                            if m.header is None and STATES[m.state][1] is True:
+                                with r as sess:
+                                    sess.exchange(AnnotatedBatch(batch=pa.RecordBatch.from_pydict({"i": [1]})))
+                            else:
+                                list(r)
+                    except RpcError as e:
+                        ended = e.error_type
+                    except Exception as e:  # noqa: BLE001
+                        ended = type(e).__name__
+                    if ended != "ProtocolVersionError":
+                        ctx.tag(f"after-refusal:not-refused:{ended}")  # C09's subject, not asserted here
+                        return
+                    ctx.tag(f"o:after-refusal:{label(m)}")
+                    try:
+                        got = canon_description(introspect(client_t))
+                    except Exception as e:  # noqa: BLE001
+                        problems.append((f"C39:describe-after-refusal:{label(m)}",
+                                         f"introspect() after the refused call of {m.name!r} ({label(m)}) failed: {e!r}"[:400]))
+                        return
+                    if got != want:
+                        problems.append((f"C39:describe-after-refusal:{label(m)}:different",
+                                         f"description after the refused call of {m.name!r} differs from the first one"))
+                        return
+
+        w = threading.Thread(target=scenario, daemon=True)
+        w.start()
+        w.join(timeout=30)
+        if w.is_alive():
+            problems.append(("C39:describe-after-refusal:hang", "client blocked for 30 s"))
+        try:
+            client_t.close()  # EOF ends the server's serve() loop
+        except Exception:  # noqa: BLE001
+            pass
+        th.join(timeout=10)
+        try:
+            server_t.close()
+        except Exception:  # noqa: BLE001
+            pass
+        for key, what in problems:
+            ctx.fail(case, key, what)
+
+    # ---- K: _ArrowSchemaDescriptor.__get__ on class forests x touch sequences ---------------------------------------------
+    def k_schema_cache(self, n: int) -> None:
+        ctx = self.ctx
+        rng = ctx.rng
+        if ctx.driver is None:
+            return
+        for i in range(n):
+            k = rng.choice([1, 2, 2, 3, 3, 4, 5])
+            parents: list[int | None] = [None if (j == 0 or rng.random() < 0.25) else rng.randrange(j) for j in range(k)]
+            if i == 0:
+                parents = [None, 0]
+            touches = [rng.randrange(k) for _ in range(rng.choice([1, 2, 3, 4, 6]))]
+            if i == 0:
+                touches = [0, 1, 1, 0]
+            classes: list[type] = []
+            for j, par in enumerate(parents):
+                base = ArrowSerializableDataclass if par is None else classes[par]
+                classes.append(dataclass(frozen=True)(type(f"K{j}", (base,), {"__annotations__": {f"f{j}": int}, "__module__": __name__})))
+
+            def names(j: int) -> list[str]:
+                return (names(parents[j]) if parents[j] is not None else []) + [f"f{j}"]  # type: ignore[arg-type]
+
+            got: list[int | None] = []
+            for t in touches:
+                sch = classes[t].ARROW_SCHEMA  # type: ignore[attr-defined]
+                got.append(next((j for j in range(k) if sch.names == names(j)), None))
+            case = {"k": "schema_touch", "parents": parents, "touches": touches}
+            ctx.case(case, nontrivial=k > 1, tags=("k:schema-cache", "inherits" if any(p is not None for p in parents) else "flat"))
+
+            def compare(model: list[int], got: list[int | None] = got, case: dict[str, Any] = case) -> None:
+                if model != got:
+                    ctx.mismatch(case, model, got, "ARROW_SCHEMA of a class forest after a touch sequence: model vs _ArrowSchemaDescriptor")
+
+            self.ask("C39.schema_touch", {"parents": parents, "touches": touches}, compare)
+
     # ---- one base service, everything --------------------------------------------------------------------------
     def service(self, s: SvcSpec, all_edits: bool, http: bool, k_edits: bool) -> None:
         ctx = self.ctx
@@ -926,11 +1166,25 @@ class Run:
             rng.shuffle(items)
             self.k_build(s.name, dict(items), "other-" + s.server_id, None, "shuffled", expect_hash=srv.protocol_hash)
         self.check_describe(s, srv, http)
+        # the same definition, built on fresh classes whose ancestors / siblings were materialised in other orders
+        if any(len(record_chain(u)) > 1 for u in used_records(s)):
+            for order in TOUCH_ORDERS[1:]:
+                tcase = {"service": spec_json(s), "touch": order}
+                ctx.case(tcase, nontrivial=True, tags=("o:touch-order", f"touch:{order}"))
+                tsrv, terr = self.build(s, order)
+                if tsrv is None:
+                    ctx.fail(tcase, "C39:service-rejected", f"could not be served after touch order {order}: {terr}")
+                    continue
+                if tsrv.protocol_hash != srv.protocol_hash:
+                    ctx.fail(tcase, f"C39:hash-unstable:touch-order:{order}",
+                             f"same definition, protocol_hash {tsrv.protocol_hash} after {order} vs {srv.protocol_hash}")
+                self.check_describe(s, tsrv, False, touch=order)
         es = edits(s, rng)
         if not all_edits:
             es = rng.sample(es, min(len(es), 12))
         for kind, t in es:
-            esrv = self.check_edit(s, srv, kind, t)
+            order = rng.choice(TOUCH_ORDERS) if any(len(record_chain(u)) > 1 for u in used_records(t)) else "none"
+            esrv = self.check_edit(s, srv, kind, t, order)
             if esrv is not None and k_edits and rng.random() < 0.25:
                 self.k_build(t.name, {n: i for n, i in esrv._methods.items() if n != "__describe__"}, t.server_id, t.version, "edited",
                              expect_hash=esrv.protocol_hash)
@@ -1128,6 +1382,10 @@ def run(ctx: Any) -> None:
             continue
         r.k_hash(name, rows, mb, kind)
         r.k_parse(rows, md_list(mmd), mb, mmd, kind)
+    r.k_schema_cache(bud(150, 3000))
+    # ---- a version-mismatched client keeps its one connection: refused call, then describe
+    for s in [x for x in specs if x.version is not None and x.methods][: bud(25, 300)]:
+        r.check_after_refusal(copy.deepcopy(s))
     r.flush()
     k_primitives(ctx, r)
     k_env_laws(ctx, r)
@@ -1158,14 +1416,14 @@ def replay(ctx: Any, case: dict[str, Any]) -> None:
             ctx.fail(case, "C39:service-rejected", str(err))
             return
         r.register(base, srv, case)
-        r.check_edit(base, srv, case["edit"], edited)
+        r.check_edit(base, srv, case["edit"], edited, case.get("touch", "none"))
     elif "describe" in case:
         s = spec_from_json(case["describe"])
-        srv, err = r.build(s)
+        srv, err = r.build(s, case.get("touch", "none"))
         if srv is None:
             ctx.fail(case, "C39:service-rejected", str(err))
             return
-        r.check_describe(s, srv, http=True)
+        r.check_describe(s, srv, http=True, touch=case.get("touch", "none"))
     elif "pair" in case or ("a" in case and "b" in case):
         specs = [spec_from_json(j) for j in (case["pair"] if "pair" in case else [case["a"], case["b"]])]
         ctx.case(case)
@@ -1173,6 +1431,17 @@ def replay(ctx: Any, case: dict[str, Any]) -> None:
             srv, _err = r.build(s)
             if srv is not None:
                 r.register(s, srv, case)
+    elif "after_refusal" in case:
+        r.check_after_refusal(spec_from_json(case["after_refusal"]))
+    elif "touch" in case and "service" in case:
+        s = spec_from_json(case["service"])
+        ctx.case(case)
+        a, _ = r.build(s)
+        b, _ = r.build(s, case["touch"])
+        if a is not None and b is not None:
+            if a.protocol_hash != b.protocol_hash:
+                ctx.fail(case, f"C39:hash-unstable:touch-order:{case['touch']}", f"{b.protocol_hash} vs {a.protocol_hash}")
+            r.check_describe(s, b, False, touch=case["touch"])
     elif "process" in case:
         s = spec_from_json(case["process"])
         srv, _ = r.build(s)
